@@ -437,8 +437,9 @@ class Interp:
         for t in ast.walk(s.target):
             if isinstance(t, ast.Name):
                 names.add(t.id)
+        tys = spec['abstract'].get('types', {})
         for n in sorted(names | mutated):
-            self.env[n] = fresh(Ty('any'), 'loop_' + n.strip('_'))
+            self.env[n] = fresh(parse_ty(tys[n]) if n in tys else Ty('any'), 'loop_' + n.strip('_'))
         st = self.ghost.get('k3')
         if st is not None:
             nel = z3.Int(fresh_name('loop_elems'))
@@ -459,6 +460,7 @@ class Interp:
             for t, x in zip(elts, items):
                 self.assign(t, x)
             self.ghost['iter_items'] = items
+            self.ghost['iter_env0'] = {n_: models.snapshot(v_) for n_, v_ in self.env.items()}
             if st is not None:
                 self.ghost['iter_S0'] = st.stream.text
             for r in step.get('requires', []):
@@ -471,7 +473,9 @@ class Interp:
                 self.ghost['loop_failed'] = True
                 raise
             for j, e in enumerate(step.get('ensures', [])):
-                self.oblige('%s.step[%d]' % (base, j), self.spec_bool(e), 'inv', {'text': e})
+                # (a per-iteration POSTCONDITION -- a statement of the property about every iteration,
+                # not an auxiliary invariant: a baseline obligation that fails is a violation)
+                self.oblige('%s.step[%d]' % (base, j), self.spec_bool(e), 'post', {'text': e})
             self.cover('%s.step.cover' % base)
             raise PathEnd()
         if which == 1:
